@@ -22,6 +22,26 @@ import math
 
 from lib import cmd, Sym, import_impl
 
+META = dict(
+    technique='Coq theorems over all histories of a heap model of formula objects (locations vs copies) + extracted-model comparison of random '
+              'histories on the real objects after every step + direct check of the property on the real objects',
+    category='proof',
+    text='Theorems (Prop_C19_alias.v): for every history of client allocations, builder calls (add_clause, add_clauses_from, add_linear/cardinality_*, '
+         'add_parity, add_constraint; check on or off; returning or raising), accesses (F[i], iteration, slices, clauses()), header edits, '
+         'transformations (FlipPolarity, XorSubstitution, OrSubstitution, Shuffle with explicit lists) and client mutations of any list it holds: '
+         'no list belongs to two formula objects; an operation changes only the object it acts on; transformations leave every existing object as it '
+         'was and later work on the result never changes the input (and vice versa); every operation but a client mutation only allocates (arguments '
+         'unchanged, also on the error path; a raising add_clauses_from keeps exactly the prefix); for the repaired code, and for histories of the code '
+         'as found that do not iterate, slice or pass list-pairs, no client mutation is visible in any formula. REFUTED for the code as found: iteration '
+         'and slices hand out the stored lists, add_constraint keeps list-pairs by reference (witness histories; findings C19-A1..A3).',
+    note='Trusted: Alias.v describes the code (tied by the history comparison: every observable after every step); the observation function sees '
+         'every observable part (number_of_variables, clause list, header items; variable names are compared by the direct check only).',
+    design_ref='5/C19',
+)
+RULE = ('random histories (8-40 operations quick, 8-60 thorough) over the alphabet of Alias.v on CNF and OPB objects; one case = one history, compared '
+        'after every step; non-trivial = contains a client mutation and a formula; distinct = distinct history index')
+TRUSTED = ['harness/c19_alias.py: World.snap_model sees every observable part of a formula (number_of_variables, clauses in order, header items) and of a client list']
+
 LIT_BUILDERS = ('addclause', 'addclauses', 'addlinear', 'addparity')
 PB_BUILDERS = ('addconstraint', 'addconstraints')
 BUILDERS = LIT_BUILDERS + PB_BUILDERS
@@ -368,6 +388,10 @@ def render_py(hist):
     """the history as a Python session (for the report)"""
     out = ['from cnfgen.formula.cnf import CNF', 'from cnfgen.formula.opb import OPB', 'import cnfgen']
     nh = no = 0
+    kinds = []
+
+    def view(f):
+        return '.constraints()' if f < len(kinds) and kinds[f] == 'opb' else '.clauses()'
     for op in hist:
         n = op['op']
         ck = '' if op.get('check', True) else ', check=False'
@@ -382,9 +406,11 @@ def render_py(hist):
             nh += 1
         elif n == 'newformula':
             out.append('F%d = %s()' % (no, op['kind'].upper()))
+            kinds.append(op['kind'])
             no += 1
         elif n == 'newfrom':
             out.append('F%d = %s([%s])   # counts as F%d only when it does not raise' % (no, op['kind'].upper(), ', '.join('L%d' % h for h in op['hs']), no))
+            kinds.append(op['kind'])
             no += 1
         elif n == 'addclause':
             out.append('F%d.add_clause(%s%s)' % (op['f'], a(op['h']), ck))
@@ -402,13 +428,13 @@ def render_py(hist):
         elif n == 'addconstraints':
             out.append('F%d.add_constraints_from([%s]%s)' % (op['f'], ', '.join('L%d' % h for h in op['hs']), ck))
         elif n == 'getitem':
-            out.append('L%d = F%d%s[%d]' % (nh, op['f'], '.clauses()' if op.get('via') == 'view' else '', op['i']))
+            out.append('L%d = F%d%s[%d]' % (nh, op['f'], view(op['f']) if op.get('via') == 'view' else '', op['i']))
             nh += 1
         elif n == 'iter':
-            out.append('L%d, ... = list(F%d%s)   # one name per clause' % (nh, op['f'], '.clauses()' if op.get('via') == 'view' else ''))
+            out.append('L%d, ... = list(F%d%s)   # one name per clause' % (nh, op['f'], view(op['f']) if op.get('via') == 'view' else ''))
             nh = None
         elif n == 'slice':
-            out.append('L%s, ... = F%d%s[%d:%d]' % (nh, op['f'], '.clauses()' if op.get('via') == 'view' else '', op['a'], op['b']))
+            out.append('L%s, ... = F%d%s[%d:%d]' % (nh, op['f'], view(op['f']) if op.get('via') == 'view' else '', op['a'], op['b']))
             nh = None
         elif n == 'hdrset':
             out.append('F%d.header[%r] = %r' % (op['f'], op['k'], op['v']))
@@ -421,6 +447,7 @@ def render_py(hist):
             else:
                 out.append('F%d = cnfgen.%s(F%d%s)' % (no, {'flip': 'FlipPolarity', 'xor': 'XorSubstitution', 'or': 'OrSubstitution'}[t[0]], op['f'],
                                                         '' if t[0] == 'flip' else ', %d' % t[1]))
+            kinds.append('cnf')
             no += 1
         elif n == 'mut':
             m = op['m']
@@ -468,9 +495,12 @@ def direct_check(W, op, res, pre, pre_labels, pre_ids):
                 org = W.origin[h]
                 # how does the formula reach the list that was edited?  (by identity, not by bookkeeping)
                 if any(c is L for c in F):
-                    if org not in ('iter', 'slice'):
-                        org = [W.origin[j] for j in range(len(W.held)) if W.held[j] is L and W.origin[j] in ('iter', 'slice')][:1]
-                        org = org[0] if org else 'stored-list'
+                    first = [j for j in range(len(W.held)) if W.held[j] is L][0]      # how the client first got this list
+                    org = W.origin[first]
+                    if org in ('newlist', 'newpb'):
+                        site = W.passed.get(first, W.passed.get(h, 'never-passed'))
+                        return (site, 'argument-kept-by-reference',
+                                'a list passed to %s is stored in formula %d by reference: editing it changed the %s' % (site, g, ','.join(ch)))
                     return (org, 'returned-list-live', 'editing a list returned by %s changed the %s of formula %d' % (org, ','.join(ch), g))
                 if W.kinds[g] == 'opb' and any(t is L for c in F for t in c[:-2]):
                     return ('add_constraint', 'argument-kept-by-reference',
@@ -593,8 +623,8 @@ class Gen:
         if not W.objs:
             return [self.new_formula()]
         kind = rng.choices(['newlist', 'newpb', 'newformula', 'newfrom', 'addclause', 'addclauses', 'addlinear', 'addparity', 'addconstraint',
-                            'addconstraints', 'getitem', 'iter', 'slice', 'hdrset', 'hdrdel', 'transform', 'mut'],
-                           [6, 5, 2, 2, 10, 4, 9, 4, 8, 2, 6, 6, 4, 4, 2, 9, 22])[0]
+                            'addconstraints', 'getitem', 'iter', 'slice', 'hdrset', 'hdrdel', 'transform', 'mut', 'threshold'],
+                           [6, 5, 2, 2, 10, 4, 9, 4, 8, 2, 6, 6, 4, 4, 2, 9, 22, 4])[0]
         f = getattr(self, 'g_' + kind)
         ops = f()
         if ops is None:
@@ -738,6 +768,8 @@ class Gen:
         if not cands:
             return None
         f = rng.choice(cands)
+        if rng.random() < 0.4:
+            f = max(cands, key=lambda g: len(W.objs[g]))
         F = W.objs[f]
         width = max([len(c) for c in F] + [0])
         N, M = F.number_of_variables(), len(F)
@@ -773,6 +805,34 @@ class Gen:
                 hs.append(nh)
                 nh += 1
         return pre + [dict(op='transform', t=['shuffle'] + hs, f=f, style=rng.choice(['list', 'tuple']))]
+
+    def g_threshold(self):
+        """a long list (around 16 / 64 / 128 items) handed to a builder as it is, then edited by the client"""
+        rng, W = self.rng, self.W
+        f = self.pick_obj()
+        if f is None:
+            return None
+        n = rng.choice([15, 16, 17, 63, 64, 65, 66, 127, 128, 129, 130])
+        xs = self.lits(n, zero_ok=False)
+        h = len(W.held)
+        ops = [dict(op='newlist', xs=xs)]
+        for _ in range(rng.randint(1, 3)):
+            r = rng.random()
+            st = rng.choice(['list', 'list', 'list', 'tuple', 'gen'])
+            if r < 0.35:
+                ops.append(dict(op='addclause', f=f, h=h, check=self.check(), style=st))
+            elif r < 0.9:
+                o, c = rng.choice([('>=', 1), ('>=', 1), ('>=', n), ('>=', n), ('>=', n + 1), ('>=', 0), ('<=', 0), ('<=', n - 1), ('<=', n), ('!=', 0), ('!=', 1),
+                                   ('>', 0), ('<', n), ('==', n), ('==', 0)])
+                if W.kinds[f] == 'opb' and o not in CARD:
+                    o, c = '>=', 1
+                ops.append(dict(op='addlinear', f=f, h=h, o=o, c=c, check=self.check(), style=st,
+                                api='cardinality' if (W.kinds[f] == 'opb' or (o in CARD and rng.random() < 0.5)) else 'add_linear'))
+            else:
+                ops.append(dict(op='addclauses', f=f, hs=[h, h], check=self.check(), style=st))
+            i = rng.randrange(n)
+            ops.append(dict(op='mut', h=h, m=rng.choice([['neg', i], ['set', i, rng.choice([1, -1]) * rng.randint(1, 6)], ['append', 3], ['pop'], ['reverse']])))
+        return ops
 
     def g_mut(self):
         rng, W = self.rng, self.W
@@ -939,6 +999,15 @@ def probe_liveness():
     return it, pr
 
 
+def too_costly(W, op):
+    """the Gallina enumerators are exponential in the length of the list for some constants (cnf class only: combs / neq_clauses)"""
+    if op['op'] != 'addlinear' or not (0 <= op['h'] < len(W.held)) or not (0 <= op['f'] < len(W.kinds)):
+        return False
+    if W.kinds[op['f']] == 'opb' and op['o'] != '!=':
+        return False
+    return model_cost(len(W.held[op['h']]), op['o'], op['c']) > 3000
+
+
 def model_trace(ctx, live, hists):
     reqs = [cmd('alias_trace', live[0], live[1], [op_sx(op) for op in h]) for h in hists]
     return ctx.model.batch(reqs)
@@ -966,7 +1035,7 @@ def run_alias(ctx):
     quick = ctx.tier == 'quick'
     live = probe_liveness()
     ctx.tally('alias: code variant (iteration live, list-pairs live)', str(live))
-    nh = 160 if quick else 1400
+    nh = 300 if quick else 1000
     hists, runs = [], []
     reported = {}
 
@@ -986,9 +1055,13 @@ def run_alias(ctx):
         length = rng.randint(8, 40) if quick else rng.randint(8, 60)
         hist, snaps, ress = [], [], []
         fails = []
+        cut = None          # the model follows the history up to here
         while len(hist) < length:
             for op in G.next_ops():
                 pre, pl = W.snap_model(), W.snap_labels()
+                if cut is None and too_costly(W, op):
+                    cut = len(hist)
+                    ctx.tally('alias: histories continued on the real objects only (model enumeration too costly)', 'yes')
                 try:
                     res = W.run(op)
                 except Skip:
@@ -1026,6 +1099,8 @@ def run_alias(ctx):
             if (f[1], f[2]) not in seen:
                 seen.add((f[1], f[2]))
                 report_direct(hist, f)
+        if cut is not None:
+            hist, snaps, ress = hist[:cut], snaps[:cut], ress[:cut]
         hists.append(hist)
         runs.append((snaps, ress, fails))
     # the model, all histories in one batch
@@ -1056,3 +1131,10 @@ def run_alias(ctx):
                                  difference=(mm2 or mm)[2], theorem='Prop_C19_alias (model coq/Alias.v no longer describes the code)')
         ctx.violation('correspondence', 'real objects and Alias.v disagree after step %d (%s): %s' % (i, part, what), reported[key], False,
                       site='alias-model', cls=part)
+
+
+def run(ctx):
+    """stand-alone: ./check C19_alias (the findings are filed under property C19)"""
+    import lib
+    ctx.findings = [f for f in lib.load_findings() if f['property'] == 'C19']
+    run_alias(ctx)
